@@ -76,12 +76,12 @@ impl Visitor<'_> for MemoryLocationVisitor {
     {
         if let Some(so) = v.strip_prefix("so") {
             let (sign, num) = so.split_at(1);
-            let num = num.parse::<i32>().map_err(de::Error::custom)?;
-            Ok(MemoryLocation::StackOffset(if sign == "-" {
-                -num
-            } else {
-                num
-            }))
+            // The magnitude of i32::MIN does not fit in an i32: read it wider.
+            let num = num.parse::<i64>().map_err(de::Error::custom)?;
+            let num = if sign == "-" { -num } else { num };
+            Ok(MemoryLocation::StackOffset(
+                i32::try_from(num).map_err(de::Error::custom)?,
+            ))
         } else if let Some(csr) = v.strip_prefix("csr+") {
             let csr = csr.parse::<u32>().map_err(de::Error::custom)?;
             Ok(MemoryLocation::CsrRegister(CsrImm::new(csr)))
